@@ -120,22 +120,15 @@ def hashDiffClass (a b : List Char) : String :=
       if hnorm va == hnorm vb && (ha != hnorm va || hb != hnorm vb) then "implicit-scan" else "unclassified"
     | _, _ => "unclassified"
 
-/-- The events of a text without the brace events the comparator may skip. -/
-def leaves (inp : List Char) : List Event :=
-  (events inp).1.filter fun e => !(e.beq .startBody || e.beq .endRecord)
-
-def evsSame : List Event → List Event → Bool
-  | [], [] => true
-  | e :: a, f :: b => e.beq f && evsSame a b
-  | _, _ => false
-
 /-- Why two texts of different values compare equal (classified on the model; narrow on purpose):
-`same-leaves` — the two event streams differ only in where `StartBody`/`EndRecord` stand: the comparator skips braces
-  wherever the streams disagree and its size bookkeeping (`ValueType::len` is additive) cannot tell `{{1,1}}` from
-  `{1,{1}}` (finding C15-N3) — and the comparator as modelled gives the same answer;
-anything else (a merge the modelled code would not make, or of texts with different leaves) is `other`. -/
+`same-leaves` — both texts are valid single values, their event streams differ only in where `StartBody`/`EndRecord`
+  stand, and the comparator as modelled gives the same answer: it skips braces wherever the streams disagree and its
+  size bookkeeping (`ValueType::len` is additive) cannot tell `{{1,1}}` from `{1,{1}}` (finding C15-N3).
+  `C15_merge_class_exact` proves that this is every merge the modelled comparator can make;
+anything else (a merge the modelled code would not make) is `other`. -/
 def mergeClass (a b : List Char) : String :=
-  if evsSame (leaves a) (leaves b) && compareRecon a b then "same-leaves" else "other"
+  if (events a).2 = .fin && (events b).2 = .fin && singleB (events a).1 && singleB (events b).1 &&
+     evsAgree (leavesOf (events a).1) (leavesOf (events b).1) && compareRecon a b then "same-leaves" else "other"
 
 /-- The property on one `pair` line, from the implementation's answers alone. -/
 def pairVerdict (ha hb : String) (out : String) : Option String :=
